@@ -244,6 +244,18 @@ func transform(xs []float64, shift, scale float64) []float64 {
 	return out
 }
 
+func sameBits(a, b []float64) bool {
+	if len(a) != len(b) {
+		return false
+	}
+	for i := range a {
+		if math.Float64bits(a[i]) != math.Float64bits(b[i]) {
+			return false
+		}
+	}
+	return true
+}
+
 // withSpare copies xs into a buffer with spare capacity filled with a sentinel.
 func withSpare(xs []float64) []float64 {
 	out := make([]float64, len(xs), 3*len(xs)+4)
@@ -281,6 +293,40 @@ var checkTTest = ev.Register("ttest", func(c *Case) ev.Outcome {
 	want := wantError(c.Kind, c.X1, c.X2)
 	if err != want {
 		return ev.Fail("%s: error %v, want %v", c.Kind, err, want)
+	}
+	// The same call with the two samples as two windows of ONE array: a small gap apart, and
+	// - when one sample is a value-for-value prefix of the other - as data[:k] and data (the same
+	// first element, different lengths). Errors and results must be those of separate slices.
+	if c.Kind != "one" {
+		layouts := [][2][]float64{}
+		n1, n2 := len(c.X1), len(c.X2)
+		buf := make([]float64, 0, n1+1+n2+8)
+		buf = append(buf, c.X1...)
+		buf = append(buf, -3.25e99)
+		buf = append(buf, c.X2...)
+		layouts = append(layouts, [2][]float64{buf[:n1], buf[n1+1 : n1+1+n2]})
+		short, long, swapped := c.X1, c.X2, false
+		if len(short) > len(long) {
+			short, long, swapped = c.X2, c.X1, true
+		}
+		if len(short) > 0 && len(short) < len(long) && sameBits(short, long[:len(short)]) {
+			data := append(make([]float64, 0, 2*len(long)+3), long...)
+			a, b := data[:len(short)], data
+			if swapped {
+				a, b = b, a
+			}
+			layouts = append(layouts, [2][]float64{a, b})
+		}
+		for li, l := range layouts {
+			before := append([]float64(nil), l[0][:cap(l[0])]...)
+			r2, err2 := call(c.Kind, l[0], l[1], c.Mu0, c.Alt)
+			if !sameBits(before, l[0][:cap(l[0])]) {
+				return ev.Fail("%s: arguments given as windows of one array (layout %d) were modified", c.Kind, li)
+			}
+			if err2 != err || (err == nil && (math.Float64bits(r2.T) != math.Float64bits(r.T) || math.Float64bits(r2.P) != math.Float64bits(r.P) || r2.DoF != r.DoF)) {
+				return ev.Fail("%s: with the samples given as windows of one array (layout %d: lengths %d and %d) the result is %+v, %v; on separate slices %+v, %v", c.Kind, li, len(l[0]), len(l[1]), r2, err2, r, err)
+			}
+		}
 	}
 	classes := []string{c.Kind, fmt.Sprintf("alt=%d", c.Alt)}
 	if want != nil {
@@ -607,7 +653,16 @@ func drawCase(t *rapid.T) *Case {
 func TestTTests(t *testing.T) {
 	ev.Rule(rule)
 	ev.Rapid(t, "c04-ttest", 20000, 300000, func(rt *rapid.T) {
-		checkTTest.Run(rt, drawCase(rt))
+		c := drawCase(rt)
+		if c.Kind != "one" && len(c.X1) > 0 && len(c.X2) > 0 && rapid.IntRange(0, 7).Draw(rt, "prefix") == 0 {
+			// one sample is (value for value) a prefix of the other
+			if len(c.X1) <= len(c.X2) {
+				copy(c.X1, c.X2[:len(c.X1)])
+			} else {
+				copy(c.X2, c.X1[:len(c.X2)])
+			}
+		}
+		checkTTest.Run(rt, c)
 	})
 }
 
